@@ -84,3 +84,92 @@ def register(reg):
 
     k = reg.contract("_unary_operation:UnaryOperation.simplify", virtual=True, properties=("C05",))
     k.ens("merged-equals-sequence", simplify_sem)
+
+
+# ====================================================================== commute (C04)
+NODE_OPS = ("Calculation", "Deduplication", "Projection", "Selection", "Slice", "Sort")
+
+
+def register_commute(reg):
+    P = ("C04",)
+
+    def parts(c):
+        cur = c.current
+        cur_op = c.attr(cur, "operation").z
+        tgt = c.attr(cur, "target")
+        C = c.attr(tgt, "columns").z
+        X = z3.Const("g_X", V.RS)
+        res = c.result
+        first, second = c.attr(res, "first").z, c.attr(res, "second").z
+        done = c.attr(res, "done").z
+        return cur_op, C, X, first, second, done
+
+    def cells(c):
+        cur_op = c.attr(c.current, "operation").z
+        return [(f"cur={n}", smt.typ(cur_op) == c.ex.types.cid(c.ex.repo.cls(n))) for n in NODE_OPS]
+
+    k = reg.contract("_unary_operation:UnaryOperation.commute", virtual=True, properties=P, split=cells)
+    # X ranges over every row sequence whose columns are those of current.target
+    k.req("new-operation-valid-at-the-root", lambda c: B(V.uvalid(c.self.z, c.attr(c.current, "columns").z)))
+    k.req("target-columns-truthful", lambda c: B(c.attr(c.attr(c.current, "target"), "columns").z == V.rcols(V.rows(c.attr(c.current, "target").z))))
+
+    def pj_pre(c):
+        me = c.self.z
+        ex = c.ex
+        A = ex.spec.A
+        jb = A("PartialJoin", "binary")(me)
+        fx = A("PartialJoin", "fixed")(me)
+        K = A("Join", "min_columns")(jb)
+        Fc = A("BaseRelation", "columns")(fx)
+        cond = z3.And(A("Join", "max_columns")(jb) == smt.OptTagSet.ots_some(K), z3.IsSubset(K, Fc), Fc == V.rcols(V.rows(fx)),
+                      z3.IsSubset(z3.SetIntersect(c.attr(c.current, "columns").z, Fc), K),
+                      z3.IsSubset(V.fv(A("Join", "predicate")(jb)), z3.SetUnion(c.attr(c.current, "columns").z, Fc)))
+        return B(z3.Implies(smt.typ(me) == ex.types.cid(ex.repo.cls("PartialJoin")), cond))
+
+    k.req("join-resolved-and-unshadowed-at-the-root", pj_pre)
+
+    def with_X(c, body):
+        cur_op, C, X, first, second, done = parts(c)
+        return B(z3.Implies(V.rcols(X) == C, body(c.self.z, cur_op, C, X, first, second, done)))
+
+    k.ens("refusal-hands-back-the-existing-operation",
+          lambda c: with_X(c, lambda me, cur, C, X, f, s, d: z3.Implies(f == smt.NONE, s == cur)))
+    k.ens("reported-operations-well-formed",
+          lambda c: with_X(c, lambda me, cur, C, X, f, s, d: z3.Implies(f != smt.NONE, z3.And(V.uvalid(f, C), V.uvalid(s, V.rcols(V.sem(f, X)))))))
+    k.ens("full-move-preserves-rows",
+          lambda c: with_X(c, lambda me, cur, C, X, f, s, d: z3.Implies(z3.And(d, f != smt.NONE), V.sem(s, V.sem(f, X)) == V.sem(me, V.sem(cur, X)))))
+    k.ens("done-without-move-means-no-op",
+          lambda c: with_X(c, lambda me, cur, C, X, f, s, d: z3.Implies(z3.And(d, f == smt.NONE), V.sem(cur, X) == V.sem(me, V.sem(cur, X)))))
+    k.ens("partial-move-preserves-rows",
+          lambda c: with_X(c, lambda me, cur, C, X, f, s, d: z3.Implies(z3.And(z3.Not(d), f != smt.NONE),
+                                                                        V.sem(me, V.sem(s, V.sem(f, X))) == V.sem(me, V.sem(cur, X)))))
+    k.ens("only-projections-move-partially",
+          lambda c: with_X(c, lambda me, cur, C, X, f, s, d: z3.Implies(smt.typ(me) != c.ex.types.cid(c.ex.repo.cls("Projection")), z3.Or(f == smt.NONE, d))))
+
+
+def _witnesses(reg):
+    def hidden_shadow(c, _):
+        """F7: the existing projection hides a column that the fixed operand also has."""
+        A = c.ex.spec.A
+        me = c.self.z
+        cur_op = c.attr(c.current, "operation").z
+        tcols = c.attr(c.attr(c.current, "target"), "columns").z
+        Fc = A("BaseRelation", "columns")(A("PartialJoin", "fixed")(me))
+        hidden = z3.SetDifference(tcols, A("Projection", "columns")(cur_op))
+        return B(z3.Not(z3.And(smt.typ(cur_op) == c.ex.types.cid(c.ex.repo.cls("Projection")), z3.SetIntersect(hidden, Fc) != smt.EMPTY_TAGS)))
+
+    def fixed_is_lhs(c, _):
+        A = c.ex.spec.A
+        return B(z3.Not(A("PartialJoin", "fixed_is_lhs")(c.self.z)))
+
+    reg.witness_classes["F7-hidden-shadow"] = hidden_shadow
+    reg.witness_classes["F19-fixed-is-lhs"] = fixed_is_lhs
+
+
+_prev = register
+
+
+def register(reg):  # noqa: F811
+    _prev(reg)
+    register_commute(reg)
+    _witnesses(reg)
